@@ -697,7 +697,7 @@ def all_cases(thorough=False):
         cs.append(case_site("Weibull", what, cats=4, with_mu=True))
         cs.append(case_site("Weibull", what, cats=2, with_inv=True))
         cs.append(case_site("Weibull", what, cats=3, with_inv=True, with_mu=True))
-    for n in (3, 4):
+    for n in ((3, 4) if thorough else (4,)):
         for kind in ("time", "ratio", "shift", "unrooted"):
             for what in ("node_heights", "branch_lengths", "call"):
                 if kind == "unrooted" and what != "branch_lengths":
@@ -713,7 +713,7 @@ def all_cases(thorough=False):
         cs.extend(case_transform(name))
     for which in ("exp", "affine", "softplus", "stickbreaking", "cumsumexp"):
         cs.extend(case_transformed_parameter(which))
-    for n, hetero in ((4, False), (3, True), (5, True)):
+    for n, hetero in (((4, False), (3, True), (5, True)) if thorough else ((4, False), (5, True))):
         for which in ("constant", "integrated", "exponential", "skyride", "skygrid", "linear",
                       "piecewise-exponential"):
             cs.append(case_coalescent(which, n, hetero, "time", grid_n=n - 1 if hetero else 3))
@@ -736,6 +736,8 @@ def all_cases(thorough=False):
                   "Cauchy", "Laplace", "HalfNormal"):
         for d in (1, 3):
             if which == "Dirichlet" and d == 1:
+                continue
+            if not thorough and d == 1 and which not in ("Normal", "Gamma[d]"):
                 continue
             cs.append(case_distribution(which, d))
     for param in ("covariance_matrix", "scale_tril", "precision_matrix"):
